@@ -2350,7 +2350,12 @@ class HedgeRisks(Algo):
             i = d.index.get_loc(target.now)
             data.append((i, d))
 
-        hedge_risk = np.array([[_get_unit_risk(s, d, i) for (i, d) in data] for s in securities])
+        # risk per unit of quantity traded: UpdateRisk scales unit risk by the multiplier, so must the Jacobian
+        def _multiplier(s):
+            node = target.children.get(s, target._lazy_children.get(s))
+            return node.multiplier if node is not None else 1.0
+
+        hedge_risk = np.array([[_get_unit_risk(s, d, i) * _multiplier(s) for (i, d) in data] for s in securities])
 
         # Get hedge ratios
         if self.pseudo:
